@@ -1,6 +1,8 @@
 use vkit::engine::{drive_main, Args};
 
 pub mod c08;
+pub mod c09;
+pub mod c10;
 pub mod c11;
 pub mod c21;
 pub mod dbg;
@@ -13,6 +15,8 @@ pub const STACK_SIZE: usize = 8 * 1024 * 1024;
 pub fn dispatch(id: &str, args: &Args) -> i32 {
     match id {
         "C08" => drive_main(&c08::C08, args),
+        "C09" => drive_main(&c09::C09, args),
+        "C10" => drive_main(&c10::C10, args),
         "C11" => drive_main(&c11::C11, args),
         "C21" => drive_main(&c21::C21, args),
         "C31" => drive_main(&c31::C31, args),
